@@ -171,6 +171,18 @@ def check_text(arg):
                                        "except BaseException as ex:\n    print(type(ex).__name__, ex); sys.exit(1)\n")))
                 continue
             # anything returned renders text that the same constructor accepts again
+            if name in FUNCS:
+                try:
+                    text2 = "\n".join(o.line for o in obj)
+                    fn(text2, **kw)
+                except BaseException as ex:
+                    shape = ":group-without-members" if name == "addrgroups" and any(not getattr(o, "items", None) for o in obj) else ""
+                    fails.append(dict(key=f"bounded/{name}:rejects-own-text:{type(ex).__name__}" + shape,
+                                      what=f"{name}({text[:80]!r}) returned objects whose text the function rejects: {type(ex).__name__}: {str(ex)[:100]}",
+                                      inputs=dict(cls=name, text=text[:300], platform=platform),
+                                      cmd=("import sys, cisco_acl\n"
+                                           f"kw = {kw!r}\nr = cisco_acl.{name}({text[:2000]!r}, **kw)\ntry:\n    cisco_acl.{name}('\\n'.join(o.line for o in r), **kw); sys.exit(0)\n"
+                                           "except BaseException as ex:\n    print(type(ex).__name__, ex); sys.exit(1)\n")))
             if name in CLASSES:
                 try:
                     line = obj.line
@@ -243,7 +255,7 @@ def main(chk):
     t0 = time.time()
     ts = texts(chk.tier, chk.seed)
     chunks = [ts[i::256] for i in range(256)]
-    cases = [(c, p) for c in chunks for p in ("ios", "nxos")]
+    cases = [(c, p) for c in chunks for p in ("ios", "nxos")] + [(c, "asa") for c in chunks[::4]]
 
     def crashed(item, why):
         return ([dict(key="bounded/crash-or-hang", what=f"the interpreter died or hung ({why}) on one of {len(item[0])} texts, e.g. {item[0][0][:80]!r}",
